@@ -27,7 +27,9 @@ import (
 	"k8s.io/apimachinery/pkg/api/meta"
 	metav1 "k8s.io/apimachinery/pkg/apis/meta/v1"
 	"k8s.io/apimachinery/pkg/runtime"
+	"k8s.io/apimachinery/pkg/runtime/serializer"
 	"k8s.io/apimachinery/pkg/types"
+	k8stesting "k8s.io/client-go/testing"
 	"k8s.io/utils/clock"
 	fakeclock "k8s.io/utils/clock/testing"
 	"k8s.io/utils/ptr"
@@ -204,6 +206,7 @@ var (
 	c17Once   sync.Once
 	c17Scheme *runtime.Scheme
 	c17Mapper meta.RESTMapper
+	c17Codec  runtime.Decoder
 	c17Args   *deschedulerconfig.MigrationControllerArgs
 )
 
@@ -220,6 +223,7 @@ func c17Init() {
 			rm.Add(gvk, meta.RESTScopeNamespace)
 		}
 		c17Mapper = rm
+		c17Codec = serializer.NewCodecFactory(c17Scheme).UniversalDecoder()
 		var v1beta2args v1alpha2.MigrationControllerArgs
 		v1alpha2.SetDefaults_MigrationControllerArgs(&v1beta2args)
 		var args deschedulerconfig.MigrationControllerArgs
@@ -489,7 +493,13 @@ func c17NewSys(cfg *c17Cfg, res *mc.Result) *c17Sys {
 		job.Spec.ReservationOptions = &sev1alpha1.PodMigrateReservationOptions{ReservationRef: &corev1.ObjectReference{Name: c17UserRsv}}
 	}
 	pod := c17Pod(c17PodName, c17PodUID1, c17NodeA)
+	// The plain client-go object tracker (what controller-runtime's fake client used before it learned server-side
+	// apply) instead of the default field-managed one: building the latter constructs a whole client-go scheme and a
+	// REST mapper per client (milliseconds), and managed fields are of no concern to this controller. Resource
+	// versions, the status subresource and conflicts are implemented by controller-runtime's own versionedTracker on
+	// top of either tracker.
 	s.cl = fake.NewClientBuilder().WithScheme(c17Scheme).WithRESTMapper(c17Mapper).
+		WithObjectTracker(k8stesting.NewObjectTracker(c17Scheme, c17Codec)).
 		WithStatusSubresource(&sev1alpha1.PodMigrationJob{}).
 		WithObjects(job, pod).WithInterceptorFuncs(s.funcs()).Build()
 	s.clk = fakeclock.NewFakeClock(c17T0.Add(time.Minute))
